@@ -972,7 +972,7 @@ func ruleScopes(rule string) RuleFn {
 		for _, r := range rs {
 			c.Check(allowed[r], rule, "reader of Scope.childScopes: "+r, "propagation/visualisation only", r+" reads childScopes; only Scope.Scope, appendSubscopes, newGraphNode and addNodes may (downward propagation, visualisation)", nil, nil)
 		}
-		c.Floor(rule, "readers of Scope.childScopes", len(rs), 4)
+		c.Floor(rule, "readers of Scope.childScopes", len(rs), 3)
 		// ancestors via parentScope
 		if fn := c.Fn(rule, "(*dig.Scope).ancestors"); fn != nil {
 			okP := len(readsScopeField(fn, "parentScope")) > 0
@@ -1009,6 +1009,9 @@ func ruleScopes(rule string) RuleFn {
 				if l.over == "p:s.ancestors()" && len(l.earlyExits()) == 0 {
 					good = true
 				}
+			}
+			if !good {
+				good = parentWalkCollects(fn)
 			}
 			c.Check(good, rule, "getAllProviders collects from every ancestor", "range s.ancestors()", "getAllProviders does not visit all ancestors: cycle edges and missing-dependency checks miss providers", nil, nil)
 		}
@@ -1072,7 +1075,9 @@ func ruleScopes(rule string) RuleFn {
 			c.Check(len(ng) == 1 && an.Norm(ng[0].Common().Args[0]) == "p:s", rule, "newConstructorNode adds its graph node to the home scope's subtree", "s.newGraphNode(n, n.orders)", "the graph node is not added starting at the home scope", nil, nil)
 		}
 		if fn := c.Fn(rule, "(*dig.Scope).rootScope"); fn != nil {
-			okLoop := len(an.EdgesWhere(fn, func(f an.Fact) bool { return regexp.MustCompile(`^\(φt\d+\.parentScope != nil\)$`).MatchString(f.S) })) > 0
+			okLoop := len(an.EdgesWhere(fn, func(f an.Fact) bool {
+				return regexp.MustCompile(`^\(φt\d+(\.parentScope)? != nil\)$`).MatchString(f.S)
+			})) > 0 && countIfs(fn) == 1
 			okRet := false
 			an.Instrs(fn, func(in ssa.Instruction) {
 				if r, ok := in.(*ssa.Return); ok && strings.HasPrefix(an.Norm(r.Results[0]), "φ") {
@@ -1324,4 +1329,55 @@ func flowsToInfoSlice(fn *ssa.Function, ms *ssa.MakeSlice) bool {
 		}
 	})
 	return found
+}
+
+// parentWalkCollects: fn walks a cursor from the receiver through parentScope
+// until nil (the only way out of the walk) and, at every step, appends every
+// element of cursor.providers[k] to its result; no other condition.
+func parentWalkCollects(fn *ssa.Function) bool {
+	var cur *ssa.Phi
+	an.Instrs(fn, func(in ssa.Instruction) {
+		ph, ok := in.(*ssa.Phi)
+		if !ok || !an.IsDigNamed(ph.Type(), "Scope") {
+			return
+		}
+		self, parent := false, false
+		for _, e := range ph.Edges {
+			if an.Norm(e) == "p:s" {
+				self = true
+			}
+			if ld, ok := e.(*ssa.UnOp); ok && ld.Op == token.MUL {
+				if fa, ok := ld.X.(*ssa.FieldAddr); ok && fa.X == ssa.Value(ph) && an.FieldName(fa.X.Type(), fa.Field) == "parentScope" {
+					parent = true
+				}
+			}
+		}
+		if self && parent {
+			cur = ph
+		}
+	})
+	if cur == nil {
+		return false
+	}
+	nilTests, loopTests, lookups := 0, 0, 0
+	bad := false
+	an.Instrs(fn, func(in ssa.Instruction) {
+		switch x := in.(type) {
+		case *ssa.If:
+			if b, ok := x.Cond.(*ssa.BinOp); ok && (b.X == ssa.Value(cur) || b.Y == ssa.Value(cur)) && (b.Op == token.NEQ || b.Op == token.EQL) {
+				nilTests++
+			} else if isCountingPhi(x.Cond) || x.Block().Comment == "rangeindex.loop" {
+				loopTests++
+			} else {
+				bad = true
+			}
+		case *ssa.Lookup:
+			if fa, ok := an.Resolve(x.X).(*ssa.UnOp); ok {
+				if f, ok := fa.X.(*ssa.FieldAddr); ok && f.X == ssa.Value(cur) && an.FieldName(f.X.Type(), f.Field) == "providers" && an.Norm(x.Index) == "p:k" {
+					lookups++
+				}
+			}
+		}
+	})
+	return !bad && nilTests == 1 && loopTests <= 1 && lookups >= 1
 }
